@@ -239,8 +239,16 @@ struct static_array  // NOLINT(fuchsia-multiple-inheritance) : multiple inherita
 		);
 	}
 
-	constexpr static_array(decay_type&& other, allocator_type const& alloc) noexcept
-	: array_alloc{alloc}, ref(std::exchange(other.base_, nullptr), other.extensions()) {
+	constexpr static_array(decay_type&& other, allocator_type const& alloc) noexcept(multi::allocator_traits<allocator_type>::is_always_equal::value)
+	: array_alloc{alloc}, ref(nullptr, other.extensions()) {
+		if constexpr(!multi::allocator_traits<allocator_type>::is_always_equal::value) {
+			if(!(this->alloc() == other.alloc())) {  // the block of `other` can only be released through its own allocator
+				this->base_ = allocate_and_move_elements_(other);
+				static_cast<static_array&>(other).clear();
+				return;
+			}
+		}
+		this->base_ = std::exchange(other.base_, nullptr);
 		std::move(other).layout_mutable() = typename static_array::layout_type(typename static_array::extensions_type{});  // = {};  careful! this is the place where layout can become invalid
 	}
 
@@ -1281,7 +1289,7 @@ struct array : static_array<T, D, Alloc> {
 	friend BOOST_MULTI_HD constexpr auto move(array& self) -> decltype(auto) { return std::move(self); }
 	friend BOOST_MULTI_HD constexpr auto move(array&& self) -> decltype(auto) { return std::move(self); }
 
-	array(array&& other, typename array::allocator_type const& alloc) noexcept : static_array<T, D, Alloc>{std::move(other), alloc} {
+	array(array&& other, typename array::allocator_type const& alloc) noexcept(multi::allocator_traits<typename array::allocator_type>::is_always_equal::value) : static_array<T, D, Alloc>{std::move(other), alloc} {
 		assert(this->stride() != 0);
 	}
 	array(array&& other) noexcept : array{std::move(other), other.get_allocator()} {
